@@ -401,6 +401,52 @@ where
             ev(6 * N as u64);
         }
     }
+    // UNIFORM parameter frames (all gains 1.0 / 0.0 / 0.5, all offsets zero) on frames of
+    // full-range values at half amplitude (for the 32/64-bit integer formats most of them are not
+    // representable in the float companion, so even a gain of exactly 1.0 is the float round trip
+    // of each channel, not the identity): a frame-level "nothing to do" shortcut must still equal
+    // the per-channel sample operation. Outcomes are compared including panics.
+    {
+        let wide: [S; N] = core::array::from_fn(|c| {
+            let s = S::nth(base * 7 + c as u64 + 11);
+            match (S::INT, s.val()) {
+                (Some(fm), Val::I(r)) => S::from_val(Val::I(fm.from_amp(fm.amp(r) / 2))),
+                _ => f[c],
+            }
+        });
+        let fl = |x: f64| <S::Float as AnyS>::from_val(Val::F(x));
+        for g in [1.0f64, 0.0, 0.5, -1.0] {
+            let gains: [S::Float; N] = [fl(g); N];
+            let got = vmon::catch(|| wide.mul_amp(gains));
+            let want: Vec<Result<S, String>> = (0..N).map(|c| vmon::catch(|| wide[c].mul_amp(fl(g)))).collect();
+            let got_s = vmon::catch(|| wide.scale_amp(fl(g)));
+            for (label, got) in [("mul_amp", &got), ("scale_amp", &got_s)] {
+                match got {
+                    Ok(r) => {
+                        for c in 0..N {
+                            match &want[c] {
+                                Ok(w) if r[c].same(*w) => {}
+                                other => fail!(&format!("{}_with_uniform_gains", label), "frame {:?} with every gain {}: channel {} = {:?}, the sample operation gives {:?}", wide, g, c, r[c], other),
+                            }
+                        }
+                    }
+                    Err(m) => {
+                        if want.iter().all(|w| w.is_ok()) {
+                            fail!(&format!("{}_with_uniform_gains", label), "frame {:?} with every gain {}: panicked ({}) although no channel's sample operation does", wide, g, m);
+                        }
+                    }
+                }
+            }
+        }
+        let zero: S::Signed = <S::Signed as AnyS>::from_val(if S::INT.is_some() { Val::I(0) } else { Val::F(0.0) });
+        let (q1, q2) = (wide.add_amp([zero; N]), wide.offset_amp(zero));
+        for c in 0..N {
+            if !q1[c].same(wide[c].add_amp(zero)) || !q2[c].same(wide[c].add_amp(zero)) {
+                fail!("add_or_offset_amp_with_uniform_zero", "frame {:?}: channel {}", wide, c);
+            }
+        }
+        ev(10 * N as u64);
+    }
     // offset / scale / add / mul
     let r1 = f.offset_amp(off);
     let r2 = f.scale_amp(gain);
@@ -644,6 +690,29 @@ fn flush(rep: &mut Report) {
     }
 }
 
+/// frames wider than the 32 channels the crate documentation speaks of ([S; N] is a Frame for
+/// every N): every Frame method at N = 33, 64, 65, 100
+fn wide_frames(rep: &mut Report, seed: u64) {
+    macro_rules! go {
+        ($S:ty, $n:literal) => {
+            if let Err(m) = vmon::catch(std::panic::AssertUnwindSafe(|| check_frame::<$S, $n>(rep, seed))) {
+                rep.violation("frame|panic", format!("[{}; {}]: panicked: {}", <$S as AnyS>::NAME, $n, m), format!("kind=frame;fmt={};n={};seed={}", <$S as AnyS>::NAME, $n, seed));
+            }
+            rep.hit("frames_wider_than_32_channels");
+        };
+    }
+    go!(i16, 33);
+    go!(f64, 64);
+    go!(u8, 65);
+    go!(I24, 100);
+    // the four formats whose float companion cannot hold every value, at a few widths (the
+    // quick tier's regular sweep uses u8 / i16 / I24 / f64 only)
+    go!(i32, 2);
+    go!(u32, 3);
+    go!(i64, 9);
+    go!(u64, 5);
+}
+
 fn all_frames(rep: &mut Report, seed: u64, thorough: bool, sel: &dyn Fn(usize) -> bool) {
     frames_for!(u8, rep, seed, sel);
     frames_for!(i16, rep, seed, sel);
@@ -710,6 +779,8 @@ fn all_frame_iterators(rep: &mut Report, seed: u64, lean: bool) {
     go!(i16, 2);
     go!(f64, 5);
     if !lean {
+        go!(i16, 33);
+        go!(u8, 300);
         go!(i16, 1);
         go!(i16, 3);
         go!(i16, 8);
@@ -776,6 +847,8 @@ fn main() {
             rep.oblige("mono_formats_checked", 14);
             all_samples(&mut rep, cli.seed, cli.t(2_000, 60_000));
             all_mono(&mut rep, cli.seed);
+            rep.oblige("frames_wider_than_32_channels", 8);
+            wide_frames(&mut rep, cli.seed);
             for s in 0..cli.t(3u64, 25u64) {
                 all_frame_iterators(&mut rep, cli.seed.wrapping_add(s * 31), false);
                 all_frames(&mut rep, cli.seed.wrapping_add(s * 31), cli.thorough() || s == 0, &|_| true);
@@ -784,7 +857,7 @@ fn main() {
             rep.sample(J::obj().set("level", J::s("sample")).set("case", J::s("u8 192 .add_amp(i8 -128)")).set("spec", J::s("to signed: 64; 64 + -128 = -64; back to u8: 64")).set("real", J::u(Sample::add_amp(192u8, -128) as u64)));
             rep.sample(J::obj().set("level", J::s("frame")).set("case", J::s("[I24; 7].zip_map(other, f) / from_samples(iter of 0..=9 items) / channel_mut(i) for i in 0..9")).set("spec", J::s("per-channel sample op in channel order; None iff fewer than 7 items, exactly 7 consumed on success")));
         }
-        "release" => {
+        "release" | "release_overflow_checks" => {
             // the same sample-level and mono sweeps without debug assertions (the custom-width
             // types and every `+`/`-` in the conversions behave differently there)
             rep.oblige("sample_formats_checked", 14);
@@ -793,6 +866,7 @@ fn main() {
             all_mono(&mut rep, cli.seed);
             all_frames(&mut rep, cli.seed, false, &|n| n <= 4 || n == 32);
             all_frame_iterators(&mut rep, cli.seed, false);
+            wide_frames(&mut rep, cli.seed);
             rep.note(format!("release stage: debug_assertions={}", cfg!(debug_assertions)));
         }
         "miri" => {
